@@ -41,6 +41,22 @@ BUILTIN_FUNCS = {'len', 'isinstance', 'issubclass', 'getattr', 'setattr', 'hasat
                  'callable', 'super', 'sorted', 'abs', 'open', 'object', 'float', 'isfinite', 'vars'}
 
 
+def _consts_of(t):
+    out, stack, seen = set(), [t], set()
+    while stack:
+        x = stack.pop()
+        if x.get_id() in seen:
+            continue
+        seen.add(x.get_id())
+        if z3.is_app(x):
+            if x.num_args() == 0:
+                out.add(str(x))
+            stack.extend(x.children())
+        elif z3.is_quantifier(x):
+            stack.append(x.body())
+    return out
+
+
 class Core:
     th: Theory
 
@@ -121,9 +137,24 @@ class Core:
         if isinstance(sv, VFunc):
             # a closure escaping as a value: opaque callable, identified by its source position
             key = f"fn:{sv.module}:{sv.qual}:{getattr(sv.node, 'lineno', 0)}:{getattr(sv.node, 'col_offset', 0)}"
-            return th.const(key)
+            envkey = getattr(sv, '_envkey', None)
+            if envkey is None:
+                # the same lambda text closed over different values is a different function value
+                self._closure_ctr = getattr(self, '_closure_ctr', 0) + 1
+                envkey = self._closure_ctr
+                object.__setattr__(sv, '_envkey', envkey)
+            c = th.const(f'{key}#{self.cur_func_key}#{envkey}')
+            self.summarize_closure(sv, c)
+            return c
         if isinstance(sv, VBuiltin):
-            return th.const('builtin:' + sv.name)
+            c = th.const('builtin:' + sv.name)
+            if sv.name == 'math.isfinite' and 'isfinite' not in self.func_summ:
+                self.func_summ.add('isfinite')
+                a = z3.Const('a!fin', th.Val)
+                self.standing.append(z3.ForAll([a], z3.And(
+                    th.call(1)(c, a) == z3.If(th.fn('isfinite', th.Val, th.B)(a), th.TrueV, th.FalseV),
+                    z3.Not(th.craises(1)(c, a)))))
+            return c
         if isinstance(sv, VModule):
             return th.const('module:' + sv.name)
         if isinstance(sv, VGen):
@@ -147,6 +178,73 @@ class Core:
                     st.add(z3.ForAll([i], z3.Implies(z3.And(i >= 0, i < sv.n), z3.And(*(s0.pc + [z3.Select(th.sq_arr(t), i) == ev])))))
             return t
         raise OutOfSubset(f'cannot reify {type(sv).__name__}')
+
+    def summarize_closure(self, f, c):
+        """Definitional axioms for a closure that escapes as a value: calling the value behaves as its body.
+        (forall args.  path-condition -> call(c, args) == value / craises(c, args))"""
+        key = str(c)
+        if key in self.func_summ or self.depth > 6:
+            return
+        self.func_summ.add(key)
+        th = self.th
+        a = f.node.args
+        if a.vararg is not None or a.kwarg is not None or a.kwonlyargs:
+            return
+        params = [p.arg for p in a.posonlyargs + a.args]
+        nreq = len(params) - len(a.defaults)
+        if nreq != len(params) or len(params) > 3:
+            return
+        qs = [z3.Const(f'{p}!q{len(self.func_summ)}', th.Val) for p in params]
+        st0 = State(dict(f.env) if f.env else {}, [])
+        saved = (self.obligations, self.spec_mode, self.loop_counter, th.fresh_log, self.lemma_sink)
+        self.obligations = []          # obligations inside an escaping closure are not obligations of this function
+        th.fresh_log = []
+        self.lemma_sink = []
+        try:
+            self.spec_mode = False
+            outs = self.inline_call(f, [VVal(q) for q in qs], {}, st0, None)
+            parts = []
+            n = len(qs)
+            fresh_names = None
+
+            def mentions_invented(t):
+                nonlocal fresh_names
+                fresh_names = {str(x) for x in th.fresh_log}
+                return bool(_consts_of(t) & fresh_names)
+            for r, s in outs:
+                if isinstance(r, Raised):
+                    cond = z3.And(s.pc) if s.pc else z3.BoolVal(True)
+                    cons = [th.craises(n)(c, *qs)]
+                    if not mentions_invented(r.exc.cls):
+                        cons.append(th.cexc(n)(c, *qs) == r.exc.cls)
+                    parts.append(z3.Implies(cond, z3.And(cons)))
+                else:
+                    v = self.toVal(r, s)
+                    cond = z3.And(s.pc) if s.pc else z3.BoolVal(True)
+                    cons = [z3.Not(th.craises(n)(c, *qs))]
+                    if not mentions_invented(v):
+                        # (a result that depends on an invented symbol is left unconstrained: weaker, still sound)
+                        cons.append(th.call(n)(c, *qs) == v)
+                    parts.append(z3.Implies(cond, z3.And(cons)))
+            fresh = list(th.fresh_log)
+            if False:
+                pass
+            elif parts:
+                # one axiom per outcome (and per lemma), each binding only the invented symbols it mentions, so that
+                # the solver's triggers do not have to match all of them at once
+                for part in parts + list(self.lemma_sink):
+                    syms = _consts_of(part)
+                    bound = qs + [x for x in fresh if str(x) in syms]
+                    if not bound:
+                        self.standing.append(part)
+                    elif len(bound) == len(qs):
+                        self.standing.append(z3.ForAll(bound, part, patterns=[th.call(n)(c, *qs), th.craises(n)(c, *qs)]))
+                    else:
+                        self.standing.append(z3.ForAll(bound, part))
+        except OutOfSubset as e:
+            self.notes.append(f'closure {key} not summarised: {e}')
+        finally:
+            self.obligations, self.spec_mode, self.loop_counter, th.fresh_log, self.lemma_sink = saved
 
     def card_facts(self, has, depth=0):
         th = self.th
